@@ -162,14 +162,19 @@ impl Directory {
         Ok(Self { entries })
     }
 
+    // The synchronous encoders finish their stream when they are dropped and cannot report an
+    // I/O error from there. The sync variant therefore encodes into memory (`buffer`) and hands the
+    // finished bytes to `output` afterwards, so that a failing `output` always yields an `Err`.
     #[duplicate_item(
-        fn_name                cfg_async_filter       input_traits                       compress         flush   write_varint(writer, value)              add_await(code) async;
-        [to_writer_impl]       [cfg(all())]           [impl Write]                       [compress]       [flush] [writer.write_varint(value)]             [code]          [];
-        [to_async_writer_impl] [cfg(feature="async")] [(impl AsyncWrite + Unpin + Send)] [compress_async] [close] [writer.write_varint_async(value).await] [code.await]    [async];
+        fn_name                cfg_async_filter       input_traits                       compress         flush   write_varint(writer, value)              add_await(code) async   target(output, buffer) finish_output(output, buffer);
+        [to_writer_impl]       [cfg(all())]           [impl Write]                       [compress]       [flush] [writer.write_varint(value)]             [code]          []      [&mut buffer]          [output.write_all(&buffer)?];
+        [to_async_writer_impl] [cfg(feature="async")] [(impl AsyncWrite + Unpin + Send)] [compress_async] [close] [writer.write_varint_async(value).await] [code.await]    [async] [output]               [drop(buffer)];
     )]
     #[cfg_async_filter]
     async fn fn_name(&self, output: &mut input_traits, compression: Compression) -> Result<()> {
-        let mut writer = compress(compression, output)?;
+        #[allow(unused_mut)]
+        let mut buffer = Vec::<u8>::new();
+        let mut writer = compress(compression, target([output], [buffer]))?;
 
         write_varint([writer], [self.entries.len()])?;
 
@@ -211,6 +216,9 @@ impl Directory {
         }
 
         add_await([writer.flush()])?;
+        drop(writer);
+
+        finish_output([output], [buffer]);
 
         Ok(())
     }
